@@ -28,6 +28,18 @@ def C01(rep, prog, tier):
     part.check_all(rep, ex, only=("inference.consistency_sat.consistency",))
 
 
+def _encoding_and_enumeration(rep, ex):
+    """The summaries the MaxSAT-based operators are analysed through (CNF of a conditional's formulas, family of
+    inclusion-minimal correction sets) are discharged in the same check."""
+    cnf.roles(rep, ex)
+    cnf.literals(rep, ex)
+    cnf.constants_handling(rep, ex)
+    enum.violated(rep, ex)
+    enum.block(rep, ex)
+    enum.minimal(rep, ex)
+    enum.loop(rep, ex)
+
+
 def C02(rep, prog, tier):
     rep.explanation = ("C02: System Z: partition flow from preprocessing, layer assertions / tests / decision table of the "
                        "descending recursion, strict start index, shared short cut; PART.* of `consistency`")
@@ -58,6 +70,7 @@ def C03(rep, prog, tier):
     wrappers.shortcut_guard(rep, ex)
     wrappers.shortcut_dominance(rep, ex)
     part.check_all(rep, ex)
+    _encoding_and_enumeration(rep, ex)
 
 
 def C04(rep, prog, tier):
@@ -77,6 +90,7 @@ def C04(rep, prog, tier):
     wrappers.shortcut_guard(rep, ex)
     wrappers.shortcut_dominance(rep, ex)
     part.check_all(rep, ex)
+    _encoding_and_enumeration(rep, ex)
 
 
 def C07(rep, prog, tier):
@@ -141,12 +155,13 @@ def C11(rep, prog, tier):
 def C09(rep, prog, tier):
     rep.explanation = ("C09 (three clauses): D1 reflexivity/supraclassicality through the shared short cut and its dominance; D2 "
                        "(Bottom|A) only for unsatisfiable A: each operator answers False when A∧B has no (feasible) model but A∧¬B has; D3 "
-                       "direct inference needs faithful CNFs including constants. And, Or, cautious monotony, Cut, rational monotony, "
+                       "direct inference needs faithful CNFs including constants and a recursion that starts at the top layer (every conditional is asserted at some level). And, Or, cautious monotony, Cut, rational monotony, "
                        "left logical equivalence and right weakening relate answers of different queries and are not decided")
     ex = Explorer(prog, rep)
     table = wrappers.dispatch(rep, ex, report=False)
     keep = {"SHORTCUT.guard", "SHORTCUT.dominance", "Z.decision", "Z.tests", "Z.layer-assert", "W.subset-test", "W.decision", "W.soft/hard",
-            "LEX.cardinality", "LEX.strict-shortcuts", "LEX.soft/hard", "CNF.roles", "CNF.literals", "CNF.constants", "C.query-edges"}
+            "LEX.cardinality", "LEX.strict-shortcuts", "LEX.soft/hard", "CNF.roles", "CNF.literals", "CNF.constants", "C.query-edges",
+            "Z.start", "W.start", "LEX.start"}
     rep.only = keep
     try:
         wrappers.shortcut_guard(rep, ex)
@@ -154,6 +169,7 @@ def C09(rep, prog, tier):
         cls = _class_of(table, ("system-z", None))
         if cls:
             sysz.rec(rep, ex, cls)
+            sysz.entry_z(rep, ex, cls, strict=True, extended=False)
         for key, name, lex in ((("system-w", False), "rc2", False), (("system-w", True), "z3", False),
                                (("lex_inf", False), "rc2", True), (("lex_inf", True), "z3", True)):
             cls = _class_of(table, key)
@@ -162,8 +178,10 @@ def C09(rep, prog, tier):
                 if lex:
                     mcsops.lex_rec(rep, ex, be)
                     mcsops.lex_strict_shortcuts(rep, ex, be)
+                    mcsops.w_entry(rep, ex, be, strict=True, extended=False, prefix="LEX", n_objects=2)
                 else:
                     mcsops.w_rec(rep, ex, be)
+                    mcsops.w_entry(rep, ex, be, strict=True, extended=False)
         cnf.roles(rep, ex)
         cnf.literals(rep, ex)
         cnf.constants_handling(rep, ex)
@@ -183,7 +201,7 @@ def C12(rep, prog, tier):
     try:
         cls = _class_of(table, ("p-entailment", None))
         if cls:
-            pent.check(rep, ex, cls, strict=True, extended=True, keys=True)
+            pent.check(rep, ex, cls, strict=True, extended=True, keys=True, floors=False)
             wrappers.noninterference(rep, ex, f"{cls}._inference", ex.cache.get((f"{cls}._inference", "pent"), []))
         cls = _class_of(table, ("system-z", None))
         if cls:
@@ -221,7 +239,7 @@ def C13(rep, prog, tier):
     try:
         cls = _class_of(table, ("p-entailment", None))
         if cls:
-            pent.check(rep, ex, cls, strict=True, extended=True)
+            pent.check(rep, ex, cls, strict=True, extended=True, floors=False)
             wrappers.cache_readonly(rep, ex, f"inference/p_entailment.py:{cls.rsplit('.', 1)[1]}._inference", ex.cache.get((f"{cls}._inference", "pent"), []))
         cls = _class_of(table, ("system-z", None))
         if cls:
@@ -299,8 +317,7 @@ def C05(rep, prog, tier):
         cinf.key_discipline(rep, ex, cls)
     wrappers.shortcut_guard(rep, ex)
     wrappers.shortcut_dominance(rep, ex)
-    cnf.roles(rep, ex)
-    enum.loop(rep, ex)
+    _encoding_and_enumeration(rep, ex)
 
 
 def C16(rep, prog, tier):
